@@ -191,9 +191,9 @@ def prim (s : MState) (pr : Prim) : MState × Out × List Call :=
       (let r := scanFirstLoop s.fs p (iterateFs s) false
        ({ s with fs := r.1 }, r.2.1, r.2.2))
   -- creating / writing: the write member, `ResourceReadOnly` without one
-  | .makedir p _ | .makedirs p _ | .setinfo p | .openWrite p | .openAppend p _ =>
+  | .makedir p _ | .makedirs p _ | .setinfo p | .openWrite p | .openAppend p _
+  | .upload p _ | .writebytes p _ =>       -- `upload`/`writebytes` call `self.check()` since 7868a16
     checked s (viaWrite s pr p)
-  | .upload p _ | .writebytes p _ => viaWrite s pr p          -- these two do not call `self.check()`
   | .openbin p m =>
     checked s
       (if !modeOk m then (s, .err .ValueError, [])
